@@ -121,7 +121,7 @@ open Upnp PyDict
 structure CallOk (rt : Routing) (c : Call) (o : Out) : Prop where
   nodup : (keys o.rt).Nodup
   valid : o.exch.all (fun e => validReq e.req) = true
-  fallback : fallbackOk o.exch = true
+  adjacent : fallbackAdjacent o.exch = true
   target : ∀ r s, targetOk ⟨c, o.exch, o.res, r, s⟩ = true
   mirror : o.exch.all exchInScope = true → o.exch.foldl foldExch rt = o.rt
   result : o.exch.all exchInScope = true → ∀ r s, resultOk ⟨c, o.exch, o.res, r, s⟩ = true
@@ -165,7 +165,7 @@ theorem doSubscribe_ok (rt : Routing) (svc : Nat) (t : Int) (rs : List Reaction)
   generalize (nextReact rs).1 = r
   refine ⟨nodup_subscribeFinish _ _ _ _ hn, ?_, ?_, ?_, ?_, ?_⟩
   · simp [sub_valid cfg svc t ht]
-  · simp [fallbackOk, sub_isRenewal]
+  · simp [fallbackAdjacent, sub_isRenewal]
   · intro _ _; simp [targetOk, sub_svc, sub_isInitial]
   · intro hs
     simp only [List.all_cons, List.all_nil, Bool.and_true] at hs
@@ -234,13 +234,13 @@ theorem doResubscribe_ok (rt : Routing) (tg : Target) (t : Int) (rs : List React
     | connErr =>
       simp only
       refine ⟨nodup_keys_erase _ _ hn, by simp [ren_valid cfg svc t sid ht], ?_, fun _ _ => htarget _ _ _ _ _, ?_, ?_⟩
-      · simp [fallbackOk, ren_isRenewal]
+      · simp [fallbackAdjacent, ren_isRenewal]
       · intro _; simp [foldExch, ren_method, ren_sid]
       · intro _ _ _; simp [resultOk, lastGrant, ren_method, excOf]
     | connTimeout =>
       simp only
       refine ⟨nodup_keys_erase _ _ hn, by simp [ren_valid cfg svc t sid ht], ?_, fun _ _ => htarget _ _ _ _ _, ?_, ?_⟩
-      · simp [fallbackOk, ren_isRenewal]
+      · simp [fallbackAdjacent, ren_isRenewal]
       · intro _; simp [foldExch, ren_method, ren_sid]
       · intro _ _ _; simp [resultOk, lastGrant, ren_method, excOf]
     | resp status sid' th =>
@@ -250,7 +250,7 @@ theorem doResubscribe_ok (rt : Routing) (tg : Target) (t : Int) (rs : List React
         simp only [ne_eq, not_true_eq_false, if_false]
         refine ⟨nodup_renewFinish _ _ _ _ _ _ hn, by simp [ren_valid cfg svc t sid ht], ?_,
           fun _ _ => htarget _ _ _ _ _, ?_, ?_⟩
-        · simp [fallbackOk, ren_isRenewal]
+        · simp [fallbackAdjacent, ren_isRenewal]
         · intro hs
           simp only [List.all_cons, List.all_nil, Bool.and_true] at hs
           simpa using (ren_exch_spec cfg rt svc sid t sid' th hs).1
@@ -264,7 +264,7 @@ theorem doResubscribe_ok (rt : Routing) (tg : Target) (t : Int) (rs : List React
         generalize (nextReact rs').1 = r2 at hsub ⊢
         refine ⟨hsub.nodup, ?_, ?_, fun _ _ => htarget _ _ _ _ _, ?_, ?_⟩
         · simp [ren_valid cfg svc t sid ht, sub_valid cfg svc t ht]
-        · simp [fallbackOk, ren_isRenewal, sub_isRenewal, sub_isInitial, sub_svc, ren_svc, h200]
+        · simp [fallbackAdjacent, ren_isRenewal, sub_isRenewal, sub_isInitial, sub_svc, ren_svc, h200]
         · intro hs
           simp only [List.all_cons, List.all_nil, Bool.and_true, Bool.and_eq_true] at hs
           have := hsub.mirror (by simpa using hs.2)
@@ -289,7 +289,7 @@ theorem doUnsubscribe_ok (rt : Routing) (tg : Target) (rs : List Reaction) (hn :
     have htg := resolve_target hr
     simp only
     generalize (nextReact rs).1 = r
-    refine ⟨nodup_keys_erase _ _ hn, by simp [uns_valid], by simp [fallbackOk, uns_isRenewal], ?_, ?_, ?_⟩
+    refine ⟨nodup_keys_erase _ _ hn, by simp [uns_valid], by simp [fallbackAdjacent, uns_isRenewal], ?_, ?_, ?_⟩
     · intro _ _
       cases tg with
       | svc i => simp only at htg; subst htg; simp [targetOk, uns_svc, uns_method]
@@ -340,9 +340,9 @@ theorem doResubscribe_shape (rt : Routing) (tg : Target) (t : Int) (rs : List Re
         exact Or.inr (Or.inl ⟨svc, sid, .resp 200 a b, by simp, by intro _ _ _ h; cases h; rfl⟩)
       · exact Or.inr (Or.inr ⟨svc, sid, status, a, b, (nextReact (nextReact rs).2).1, h200, by simp [h200, doSubscribe]⟩)
 
-theorem fallbackOk_resub_append (rt : Routing) (tg : Target) (t : Int) (rs : List Reaction) (b : List Exch)
-    (hb : fallbackOk b = true) (hh : headNotInitial b = true) :
-    fallbackOk ((doResubscribe cfg rt tg t rs).exch ++ b) = true
+theorem fallbackAdjacent_resub_append (rt : Routing) (tg : Target) (t : Int) (rs : List Reaction) (b : List Exch)
+    (hb : fallbackAdjacent b = true) (hh : headNotInitial b = true) :
+    fallbackAdjacent ((doResubscribe cfg rt tg t rs).exch ++ b) = true
     ∧ headNotInitial ((doResubscribe cfg rt tg t rs).exch ++ b) = true := by
   rcases doResubscribe_shape cfg rt tg t rs with h | ⟨svc, sid, react, h, hre⟩ | ⟨svc, sid, st, a, b', r2, hst, h⟩
   · rw [h]; exact ⟨hb, hh⟩
@@ -351,31 +351,31 @@ theorem fallbackOk_resub_append (rt : Routing) (tg : Target) (t : Int) (rs : Lis
     cases react with
     | resp st a b' =>
       have := hre st a b' rfl; subst this
-      simp [fallbackOk, ren_isRenewal, hb]
+      simp [fallbackAdjacent, ren_isRenewal, hb]
     | connErr =>
       cases b with
-      | nil => simp [fallbackOk, ren_isRenewal]
+      | nil => simp [fallbackAdjacent, ren_isRenewal]
       | cons e r =>
         simp only [headNotInitial, Bool.not_eq_true'] at hh
-        rw [List.singleton_append, fallbackOk, hb]
+        rw [List.singleton_append, fallbackAdjacent, hb]
         simp [ren_isRenewal, hh]
     | connTimeout =>
       cases b with
-      | nil => simp [fallbackOk, ren_isRenewal]
+      | nil => simp [fallbackAdjacent, ren_isRenewal]
       | cons e r =>
         simp only [headNotInitial, Bool.not_eq_true'] at hh
-        rw [List.singleton_append, fallbackOk, hb]
+        rw [List.singleton_append, fallbackAdjacent, hb]
         simp [ren_isRenewal, hh]
   · rw [h]
     refine ⟨?_, by simp [headNotInitial, ren_isInitial]⟩
-    simp [fallbackOk, ren_isRenewal, sub_isRenewal, sub_isInitial, sub_svc, ren_svc, hst, hb]
+    simp [fallbackAdjacent, ren_isRenewal, sub_isRenewal, sub_isInitial, sub_svc, ren_svc, hst, hb]
 
 theorem defaultTimeout_nonneg : (0 : Int) ≤ Gen.C09Gena.defaultTimeoutResubscribe := by decide
 
 structure AllOk (rt : Routing) (o : Out) : Prop where
   nodup : (keys o.rt).Nodup
   valid : o.exch.all (fun e => validReq e.req) = true
-  fallback : fallbackOk o.exch = true
+  adjacent : fallbackAdjacent o.exch = true
   head : headNotInitial o.exch = true
   mirror : o.exch.all exchInScope = true → o.exch.foldl foldExch rt = o.rt
 
@@ -389,7 +389,7 @@ theorem resubAll_ok (sids : List Str) (rt : Routing) (rs : List Reaction) (first
     generalize ho : doResubscribe cfg rt (.sid s) Gen.C09Gena.defaultTimeoutResubscribe rs = o at h1
     have h2 := ih o.rt o.rest (match first with | some e => some e | none => excOf o.res) h1.nodup
     generalize resubAll cfg more o.rt o.rest _ = o2 at h2
-    have hf := fallbackOk_resub_append cfg rt (.sid s) Gen.C09Gena.defaultTimeoutResubscribe rs o2.exch h2.fallback h2.head
+    have hf := fallbackAdjacent_resub_append cfg rt (.sid s) Gen.C09Gena.defaultTimeoutResubscribe rs o2.exch h2.adjacent h2.head
     rw [ho] at hf
     refine ⟨h2.nodup, ?_, hf.1, hf.2, ?_⟩
     · simp only [List.all_append, Bool.and_eq_true]; exact ⟨h1.valid, h2.valid⟩
@@ -398,12 +398,12 @@ theorem resubAll_ok (sids : List Str) (rt : Routing) (rs : List Reaction) (first
       simp only [List.foldl_append]
       rw [h1.mirror hs.1, h2.mirror hs.2]
 
-theorem fallbackOk_of_no_renewal (l : List Exch) (h : ∀ e ∈ l, isRenewal e.req = false) :
-    fallbackOk l = true := by
+theorem fallbackAdjacent_of_no_renewal (l : List Exch) (h : ∀ e ∈ l, isRenewal e.req = false) :
+    fallbackAdjacent l = true := by
   induction l with
   | nil => rfl
   | cons e r ih =>
-    simp only [fallbackOk, h e List.mem_cons_self, Bool.false_eq_true, if_false, Bool.true_and]
+    simp only [fallbackAdjacent, h e List.mem_cons_self, Bool.false_eq_true, if_false, Bool.true_and]
     exact ih fun e' he' => h e' (List.mem_cons_of_mem _ he')
 
 theorem doUnsubscribe_no_renewal (rt : Routing) (tg : Target) (rs : List Reaction) :
@@ -435,7 +435,7 @@ theorem unsubAll_ok (sids : List Str) (rt : Routing) (rs : List Reaction) (hn : 
       rcases List.mem_append.mp he with h | h
       · exact hnr e h
       · exact h2nr e h
-    refine ⟨⟨h2.nodup, ?_, fallbackOk_of_no_renewal _ (fun e he => (hall e he).1), ?_, ?_⟩, hall⟩
+    refine ⟨⟨h2.nodup, ?_, fallbackAdjacent_of_no_renewal _ (fun e he => (hall e he).1), ?_, ?_⟩, hall⟩
     · simp only [List.all_append, Bool.and_eq_true]; exact ⟨h1.valid, h2.valid⟩
     · cases hx : o.exch ++ o2.exch with
       | nil => rfl
@@ -464,11 +464,96 @@ theorem runCall_ok (rt : Routing) (c : Call) (rs : List Reaction) (hn : (keys rt
   | unsubscribe tg => exact doUnsubscribe_ok cfg rt tg rs hn
   | resubscribeAll =>
     have h := resubAll_ok cfg (keys rt) rt rs none hn
-    exact ⟨h.nodup, h.valid, h.fallback, fun _ _ => by simp [targetOk]; split <;> rfl, h.mirror,
+    exact ⟨h.nodup, h.valid, h.adjacent, fun _ _ => by simp [targetOk]; split <;> rfl, h.mirror,
       fun _ _ _ => rfl⟩
   | unsubscribeAll =>
     have h := (unsubAll_ok cfg (keys rt) rt rs hn).1
-    exact ⟨h.nodup, h.valid, h.fallback, fun _ _ => by simp [targetOk]; split <;> rfl, h.mirror,
+    exact ⟨h.nodup, h.valid, h.adjacent, fun _ _ => by simp [targetOk]; split <;> rfl, h.mirror,
       fun _ _ _ => rfl⟩
+
+end Upnp.C09
+
+namespace Upnp.C09
+open Upnp PyDict
+variable (cfg : Cfg)
+
+/-! ### fallback, counted per service (order independent) -/
+
+/-- no fresh SUBSCRIBE beyond the refused renewals, for service `j` -/
+def Balanced (l : List Exch) : Prop := ∀ j, l.countP (initialFor j) = l.countP (refusedRenewalFor j)
+
+theorem balanced_nil : Balanced [] := fun _ => rfl
+
+theorem balanced_append {a b : List Exch} (ha : Balanced a) (hb : Balanced b) : Balanced (a ++ b) := by
+  intro j; simp only [List.countP_append, ha j, hb j]
+
+theorem doResubscribe_balanced (rt : Routing) (tg : Target) (t : Int) (rs : List Reaction) :
+    Balanced (doResubscribe cfg rt tg t rs).exch := by
+  intro j
+  rcases doResubscribe_shape cfg rt tg t rs with h | ⟨svc, sid, react, h, hre⟩ | ⟨svc, sid, st, a, b, r2, hst, h⟩
+  · rw [h]; rfl
+  · rw [h]
+    cases react with
+    | resp st a b =>
+      have := hre st a b rfl; subst this
+      simp [List.countP_cons, initialFor, refusedRenewalFor, ren_isInitial]
+    | connErr => simp [List.countP_cons, initialFor, refusedRenewalFor, ren_isInitial]
+    | connTimeout => simp [List.countP_cons, initialFor, refusedRenewalFor, ren_isInitial]
+  · rw [h]
+    by_cases e : svc = j
+    · simp [List.countP_cons, initialFor, refusedRenewalFor, ren_isInitial, ren_isRenewal, sub_isInitial,
+        sub_isRenewal, ren_svc, sub_svc, hst, e]
+    · simp [List.countP_cons, initialFor, refusedRenewalFor, ren_isInitial, ren_isRenewal, sub_isInitial,
+        sub_isRenewal, ren_svc, sub_svc, hst, e]
+
+theorem resubAll_balanced (sids : List Str) (rt : Routing) (rs : List Reaction) (first : Option Exc) :
+    Balanced (resubAll cfg sids rt rs first).exch := by
+  induction sids generalizing rt rs first with
+  | nil => exact balanced_nil
+  | cons s more ih =>
+    simp only [resubAll]
+    exact balanced_append (doResubscribe_balanced cfg rt (.sid s) _ rs) (ih _ _ _)
+
+theorem balanced_of_none (l : List Exch) (h : ∀ e ∈ l, isRenewal e.req = false ∧ isInitial e.req = false) :
+    Balanced l := by
+  intro j
+  have h1 : l.countP (initialFor j) = 0 := by
+    rw [List.countP_eq_zero]; intro e he; simp [initialFor, (h e he).2]
+  have h2 : l.countP (refusedRenewalFor j) = 0 := by
+    rw [List.countP_eq_zero]; intro e he; simp [refusedRenewalFor, (h e he).1]
+  rw [h1, h2]
+
+theorem unsubAll_no_renewal (sids : List Str) (rt : Routing) (rs : List Reaction) :
+    ∀ e ∈ (unsubAll cfg sids rt rs).exch, isRenewal e.req = false ∧ isInitial e.req = false := by
+  induction sids generalizing rt rs with
+  | nil => intro e he; cases he
+  | cons s more ih =>
+    intro e he
+    simp only [unsubAll] at he
+    rcases List.mem_append.mp he with h | h
+    · exact doUnsubscribe_no_renewal cfg rt (.sid s) rs e h
+    · exact ih _ _ e h
+
+/-- **fallback clause of the judge** for every call of the (non-suspending) model -/
+theorem runCall_fallback (rt : Routing) (c : Call) (rs : List Reaction) :
+    fallbackOk c (runCall cfg rt c rs).exch = true := by
+  have key : ∀ j, fallbackAt c (runCall cfg rt c rs).exch j = true := by
+    intro j
+    simp only [fallbackAt, beq_iff_eq]
+    cases c with
+    | subscribe svc t =>
+      simp only [runCall, doSubscribe, callBonus]
+      by_cases e : svc = j
+      · simp [List.countP_cons, initialFor, refusedRenewalFor, sub_isInitial, sub_isRenewal, sub_svc, e]
+      · simp [List.countP_cons, initialFor, refusedRenewalFor, sub_isInitial, sub_isRenewal, sub_svc, e]
+    | resubscribe tg t => simpa [runCall, callBonus] using doResubscribe_balanced cfg rt tg t rs j
+    | unsubscribe tg =>
+      simpa [runCall, callBonus] using balanced_of_none _ (doUnsubscribe_no_renewal cfg rt tg rs) j
+    | resubscribeAll => simpa [runCall, callBonus] using resubAll_balanced cfg (keys rt) rt rs none j
+    | unsubscribeAll =>
+      simpa [runCall, callBonus] using balanced_of_none _ (unsubAll_no_renewal cfg (keys rt) rt rs) j
+  simp only [fallbackOk, List.all_eq_true]
+  intro j _
+  exact key j
 
 end Upnp.C09
